@@ -917,7 +917,9 @@ class _G:
             c, oc = self.pick(mine), self.pick(theirs)
             op = self.pick(["+", "-", "*", "/"])
             st = {"op": "other", "mode": "series_bin", "col": c, "ocol": oc, "binop": op, "swap": r.random() < 0.3,
-                  "style": self.pick(["operator", "operator", "method"])}
+                  "style": self.pick(["operator", "method"])}
+            if st["style"] == "method" and r.random() < 0.6:
+                st["fill_value"] = r.choice([0, 1])
             kind = "float" if not identical else self._numkind(op, self.cols[c], ocols[oc])
             return self._commit_series(st, "other:series-arith" + tag, kind)
         if w < 0.5:   # frame (op) frame
@@ -927,7 +929,9 @@ class _G:
             names = sorted(set(sel) | set(osel)) if set(sel) != set(osel) else sel
             out = {c: ("float" if not identical or c not in sel or c not in osel else self._numkind(op, self.cols[c], ocols[c])) for c in names}
             self._narrow(sel)
-            st = {"op": "other", "mode": "frame_bin", "ocols": osel, "binop": op, "style": self.pick(["operator", "operator", "method"])}
+            st = {"op": "other", "mode": "frame_bin", "ocols": osel, "binop": op, "style": self.pick(["operator", "method"])}
+            if st["style"] == "method" and r.random() < 0.6:
+                st["fill_value"] = r.choice([0, 1])
             return self._commit(st, out, "other:frame-arith" + tag)
         if w < 0.7:   # assign a column of the other frame (left-aligned on the index)
             oc = self.pick(list(ocols))
@@ -1193,10 +1197,12 @@ def _other_step(st, cur, env):
         x, y = cur[st["col"]], o[st["ocol"]]
         if st["swap"]:
             x, y = y, x
-        return _BIN[st["binop"]](x, y) if st["style"] == "operator" else getattr(x, _ANAMES[st["binop"]])(y)
+        kw = {"fill_value": st["fill_value"]} if st.get("fill_value") is not None else {}
+        return _BIN[st["binop"]](x, y) if st["style"] == "operator" else getattr(x, _ANAMES[st["binop"]])(y, **kw)
     if mode == "frame_bin":
         y = o[list(st["ocols"])]
-        return _BIN[st["binop"]](cur, y) if st["style"] == "operator" else getattr(cur, _ANAMES[st["binop"]])(y)
+        kw = {"fill_value": st["fill_value"]} if st.get("fill_value") is not None else {}
+        return _BIN[st["binop"]](cur, y) if st["style"] == "operator" else getattr(cur, _ANAMES[st["binop"]])(y, **kw)
     if mode == "assign":
         return cur.assign(**{st["name"]: o[st["ocol"]]})
     if mode == "mask":
